@@ -436,7 +436,9 @@ static size_t ZSTD_seekable_loadSeekTable(ZSTD_seekable* zs)
             ZSTD_VERIF_LOOP(
                 __CPROVER_assigns(idx, pos, cOffset, dOffset, remaining,
                                   __CPROVER_object_whole(entries), __CPROVER_object_whole(zs->inBuff))
-                __CPROVER_loop_invariant(idx <= numFrames && pos <= SEEKABLE_BUFF_SIZE)
+                __CPROVER_loop_invariant(idx <= numFrames && pos <= SEEKABLE_BUFF_SIZE
+                    && (idx > 0 || (cOffset == 0 && dOffset == 0))
+                    && (idx == 0 || (entries[0].cOffset == 0 && entries[0].dOffset == 0)))
                 __CPROVER_decreases(numFrames - idx))
             {
                 if (pos + sizePerEntry > SEEKABLE_BUFF_SIZE) {
